@@ -42,6 +42,7 @@ def tree_extent(x, ax):
     return None
 
 _probe = [0]
+RAND = {}          # the PRNG model functions of the current interpreter (z3 function symbols; the same in every interpreter of a process)
 def make(interp):
     B = lambda f, n="": Builtin(f, n)
     I_ = z3.IntSort()
@@ -58,6 +59,7 @@ def make(interp):
         raise Unsupported("argsort of a non-permutation")
     random_ns = {"PRNGKey": B(lambda seed: KEY0(toz3(seed))), "split": B(lambda key, num=2: (K1(key), K2(key))), "permutation": B(rnd_permutation)}
     interp.rand = {"K1": K1, "K2": K2, "KEY0": KEY0, "PERMF": PERMF, "POSF": POSF}
+    RAND.clear(); RAND.update(interp.rand)
     def vmap(f, in_axes=0, out_axes=0):
         def mapped(*args):
             axes = in_axes if isinstance(in_axes, (tuple, list)) else (in_axes,) * len(args)
